@@ -87,6 +87,7 @@ fn opt_bdd(r: Option<Option<Bdd>>) -> String {
 }
 
 pub fn run(key: &str, a: &[String], out: &mut Out) {
+    out.begin(key, a);
     match key {
         // names tree => Bdd | none | panic        (safe_eval_expression)
         "C15.eval" => {
